@@ -20,6 +20,7 @@ FINDING_DEV = {
     "KF-C02-08": "Rtf!DeletedLeaks",
     "KF-C02-10": "Xlsx!UnnamedHeaderPlaceholder",
     "KF-C02-11": "Odt!TextboxParagraphsGlued",
+    "KF-C02-12": "Ppt!RawFallback",
 }
 
 
